@@ -21,9 +21,11 @@ def plan(tier, ctx):
     for h in ('h_representation', 'h_lock', 'h_trylock', 'h_unlock_internal', 'h_unlock'):
         j += pair('e1.mutex.' + h, [VERIF + '/e1/C03/mutex_e1.c'], h, unwind=4, timeout=300,
                   meta={'engine': 'E1 cbmc-src', 'bounds': 'one operation from any number of contenders < 2^20, arbitrary interference before each atomic step (any state while not holding, announcements only while holding), spurious weak-CAS failure'})
-    j += fvm.config('C03', 'mutex_2', 'mutex.c', 2, 4, 'sc', srcs=src, defines=['NF=2'], spec=fvm.kspec(2), bounds='2 fibers lock/unlock', timeout=1800)
-    j += fvm.config('C03', 'mutex_2', 'mutex.c', 2, 4, 'tso', srcs=src, defines=['NF=2'], spec=fvm.kspec(2), bounds='2 fibers, TSO', timeout=2400)
     j += fvm.config('C03', 'mutex_lock_try', 'mutex.c', 2, 4, 'sc', srcs=src, defines=['NF=2', 'T2_TRY'], spec=fvm.kspec(2), bounds='1 locker + 1 trylock', timeout=1800)
+    if tier == 'thorough':
+        # 9-12 min each: beyond the 15-minute budget of an every-change run, so the quick tier keeps the E1 counter step and the locker+trylock scenario
+        j += fvm.config('C03', 'mutex_2', 'mutex.c', 2, 4, 'sc', srcs=src, defines=['NF=2'], spec=fvm.kspec(2), bounds='2 fibers lock/unlock', timeout=2400)
+        j += fvm.config('C03', 'mutex_2', 'mutex.c', 2, 4, 'tso', srcs=src, defines=['NF=2'], spec=fvm.kspec(2), bounds='2 fibers, TSO', timeout=3000)
     if tier == 'thorough':
         j += fvm.config('C03', 'mutex_3try', 'mutex.c', 3, 4, 'sc', srcs=src, defines=['NF=3', 'T3_TRY'], spec=fvm.kspec(3), bounds='2 lockers + 1 trylock', timeout=3000, required=False)
         j += fvm.config('C03', 'mutex_3', 'mutex.c', 3, 4, 'sc', srcs=src, defines=['NF=3'], spec=fvm.kspec(3), bounds='3 fibers', timeout=1800, required=False)
